@@ -520,6 +520,20 @@ void vm_ffi_cop_stop(VmState *vm) {
     vm->cop_pid = -1;
 }
 
+/* Does a reply value with this wire tag fit a function declared to return
+ * return_type?  Mirrors what marshal_result() can produce on the other side:
+ * the declared tag, void for a NULL string/array, int for anything exotic. */
+static bool cop_result_tag_ok(uint8_t wire_tag, uint8_t return_type) {
+    switch (return_type) {
+        case TAG_STRING: case TAG_ARRAY:
+            return wire_tag == return_type || wire_tag == TAG_VOID;
+        case TAG_INT: case TAG_FLOAT: case TAG_BOOL: case TAG_VOID: case TAG_OPAQUE:
+            return wire_tag == return_type;
+        default:
+            return wire_tag == TAG_INT;
+    }
+}
+
 /* Check if the co-process is still alive. Reaps zombie if dead. */
 static bool cop_is_alive(VmState *vm) {
     if (vm->cop_pid <= 0) return false;
@@ -590,6 +604,12 @@ bool vm_ffi_call_cop(VmState *vm, const NvmModule *module, uint32_t import_idx,
                      NanoValue *args, int arg_count,
                      NanoValue *result, VmHeap *heap,
                      char *error_msg, size_t error_msg_size) {
+    if (import_idx >= module->import_count) {
+        snprintf(error_msg, error_msg_size, "Import index %u out of range", import_idx);
+        return false;
+    }
+    uint8_t return_type = module->imports[import_idx].return_type;
+
     /* Lazy launch: start cop on first FFI call, or relaunch after crash */
     if (!cop_ensure(vm, module, error_msg, error_msg_size)) {
         /* Could not start cop — fall back to in-process FFI */
@@ -647,6 +667,15 @@ bool vm_ffi_call_cop(VmState *vm, const NvmModule *module, uint32_t import_idx,
                 snprintf(error_msg, error_msg_size, "COP: failed to receive result payload");
                 return false;
             }
+            /* The co-process is not trusted: a value of another type than the
+             * call returns must not reach the program. */
+            if (!cop_result_tag_ok(recv_buf[0], return_type)) {
+                snprintf(error_msg, error_msg_size,
+                         "COP: result has type tag 0x%02x, the function returns 0x%02x",
+                         recv_buf[0], return_type);
+                if (recv_buf != payload) free(recv_buf);
+                return false;
+            }
             uint32_t consumed = cop_deserialize_value(recv_buf, hdr.payload_len, result, heap);
             if (recv_buf != payload) free(recv_buf);
             if (consumed == 0) {
@@ -654,6 +683,11 @@ bool vm_ffi_call_cop(VmState *vm, const NvmModule *module, uint32_t import_idx,
                 return false;
             }
         } else {
+            if (!cop_result_tag_ok(TAG_VOID, return_type)) {
+                snprintf(error_msg, error_msg_size,
+                         "COP: empty result, the function returns 0x%02x", return_type);
+                return false;
+            }
             *result = val_void();
         }
         return true;
